@@ -119,8 +119,14 @@ func GenerateSet(t *tape.Tape, illFormed bool) *Set {
 	all := append(append([]*Module{}, g.mods...), subs...)
 	g.all = all
 	for _, m := range all {
-		if t.Draw(3) > 0 {
-			m.Root.Add(S("revision", []string{"2020-01-01", "2021-06-30"}[t.Draw(2)]))
+		// 0..3 revisions, newest first (the parser insists on that order)
+		revs := []string{"2022-03-01", "2021-06-30", "2020-01-01"}
+		for i, n := t.Draw(3), t.Draw(4); n > 0 && i < len(revs); i, n = i+1, n-1 {
+			r := S("revision", revs[i])
+			if t.Rare(3) {
+				r.Add(S("description", "rev"))
+			}
+			m.Root.Add(r)
 		}
 	}
 	// definitions: dependency order — a module's submodules first (the module sees
@@ -199,7 +205,11 @@ func (g *gen) importStmt(m, target *Module) *Stmt {
 	if p != target.Prefix {
 		g.set.Probes["import_with_alias_prefix"] = true
 	}
-	return S("import", target.Name, S("prefix", p))
+	imp := S("import", target.Name, S("prefix", p))
+	if g.t.Rare(5) {
+		imp.Add(S("revision-date", []string{"2022-03-01", "2021-06-30", "2019-01-01"}[g.t.Draw(3)]))
+	}
+	return imp
 }
 
 // pfx is the prefix by which m refers to module target (its own prefix for
